@@ -209,8 +209,8 @@ pub fn replay(case: &Value) -> Vec<Obs> {
     {
         let got = match &query { Goal::ComplexGoal(u) => project(u), _ => Tm::Bad("query".into()) };
         let mut ids = vec![]; collect_ids(&got, &mut ids);
-        let k = { let mut d = ids.clone(); d.sort(); d.dedup(); d.len() };
-        let fresh = ids.iter().all(|i| *i >= 1 && *i <= k);
+        // (fresh: non-zero ids below the id counter; their numbering is the constructor's business)
+        let fresh = ids.iter().all(|i| *i >= 1 && *i <= get_var_id());
         let same_shape = canon(&[got.clone()]) == canon(&[number_by_name(&qt)]);
         if fresh && same_shape { obs.push(Obs::ok("C10", "make_query")); }
         else { obs.push(Obs::bad("C10", "make_query", format!("{} :: renamed query {}", what, show(&got)))); }
